@@ -303,14 +303,20 @@ func (b *Bucket) DeleteBucket(key []byte) (err error) {
 
 	// Recursively delete all child buckets.
 	child := b.Bucket(newKey)
+	// Collect the names first: deleting while iterating would modify the
+	// node the cursor is walking and skip some of the child buckets.
+	var names [][]byte
 	err = child.ForEachBucket(func(k []byte) error {
-		if err := child.DeleteBucket(k); err != nil {
-			return fmt.Errorf("delete bucket: %s", err)
-		}
+		names = append(names, cloneBytes(k))
 		return nil
 	})
 	if err != nil {
 		return err
+	}
+	for _, k := range names {
+		if err := child.DeleteBucket(k); err != nil {
+			return fmt.Errorf("delete bucket: %s", err)
+		}
 	}
 
 	// Remove cached copy.
